@@ -331,7 +331,7 @@ Err(EvaluationError::InvalidExpression(
 
     /// Integer arithmetic that divides by zero or leaves the range of its result type is reported as an
     /// error: the operators on the value types themselves are unchecked and would abort the worker.
-    fn check_integer_arithmetic(
+    pub(crate) fn check_integer_arithmetic(
         op: BinaryOperator,
         left: &DataType,
         right: &DataType,
@@ -733,19 +733,13 @@ impl Callable for Concat {
 struct NullIf;
 
 impl Callable for NullIf {
+    /// NULLIF(a, b): NULL when a = b, otherwise a.
     fn call(args: Vec<DataType>) -> EvaluationResult<DataType> {
-        if args.len() != 1 || !matches!(args[1], DataType::Bool(_)) {
+        if args.len() != 2 {
             return Err(EvaluationError::InvalidArguments(ScalarFunction::NullIf));
         };
 
-        let condition = args[1]
-            .as_bool()
-            .ok_or(EvaluationError::TypeError(
-                TypeSystemError::UnexpectedDataType(args[1].kind()),
-            ))?
-            .value();
-
-        if condition {
+        if !args[0].is_null() && !args[1].is_null() && args[0] == args[1] {
             return Ok(DataType::Null);
         }
         Ok(args[0].clone())
